@@ -306,7 +306,9 @@ func (p *Parser) Parse() (ast.Statement, error) {
 func (p *Parser) ParseSnippetVCL() ([]ast.Statement, error) {
 	var statements []ast.Statement
 
-	for !p.PeekTokenIs(token.EOF) {
+	// Note: loop until the current token reaches to EOF. If we looked at the peek token,
+	// the last token which stands alone (e.g. stray right brace) would be dropped silently
+	for !p.CurTokenIs(token.EOF) {
 		var stmt ast.Statement
 		var err error
 
@@ -363,7 +365,7 @@ func (p *Parser) ParseSnippetVCL() ([]ast.Statement, error) {
 				stmt, err = p.ParseGotoDestination()
 			}
 		default:
-			err = UnexpectedToken(p.peekToken)
+			err = UnexpectedToken(p.curToken)
 		}
 
 		if err != nil {
